@@ -1,8 +1,11 @@
 """C03 — pass prediction is sound and complete: rise, fall and culmination are real."""
+import calendar
 import contextlib
 import datetime as dt
 import math
+import os
 import sys
+import time
 
 import numpy as np
 
@@ -37,6 +40,13 @@ RULE = ("cases (TLE, observer, start, length, horizon): TLEs = the near-earth el
         "decreasing (24 h, 2 h) lengths and changing horizon, the same station with starts shifted by 7-90 min, a second "
         "station with the same and shifted starts, two stations interleaved; every call's result is judged by the full oracle "
         "and must equal the result of a fresh object. "
+        "Clock-change stream (oracle): the switch instants of the process time zone in a year 1990-2049 are located by "
+        "scanning time.localtime(t).tm_gmtoff (zones without switches: one of five POSIX rule zones of both hemispheres, set "
+        "with time.tzset for the case and recorded in it); the element set (random leo / near or a real one) gets an epoch "
+        "within -2 .. +1 d of the switch; 6-24 h windows contain the skipped / repeated hour read as naive wall-clock values "
+        "(2/3) or the switch read as a UTC instant (1/3), the hour lying 0.5 h after the start .. 1.5 h before the end, or "
+        "the window starts inside it; the observer is on the ground track at an instant of that hour, of the hour after it or "
+        "of the last hour of the window (a pass there), or anywhere; judged by the same oracle. "
         "distinct = (tle, observer, start, length, horizon) resp. (tle, first start) per sequence; non-trivial = at least one "
         "pass reported or one above-horizon interval in the truth")
 ASSUMPTIONS = ["cases whose propagated altitude leaves 80-30 000 km, or whose geocentric distance leaves the element set's own "
@@ -230,8 +240,8 @@ def run_impl(case, record=False):
 _REAL = None
 
 
-def _tle_pool(ctx, n):
-    """(line1, line2, Orbital): the constructible (near-earth) real element sets and as many random leo / near ones, shuffled"""
+def _real_sets():
+    """the constructible (near-earth) element sets of pyorbital's tests / SGP4-VER"""
     global _REAL
     import tlegen
     from pyorbital import orbital
@@ -244,6 +254,13 @@ def _tle_pool(ctx, n):
                 _REAL.append((a, b))
             except Exception:  # noqa  deep-space / refused element sets are C13's subject
                 continue
+    return _REAL
+
+
+def _tle_pool(ctx, n):
+    """(line1, line2, Orbital): the constructible (near-earth) real element sets and as many random leo / near ones, shuffled"""
+    from pyorbital import orbital
+    _real_sets()
     r = ctx.rng
     reals = [(a, b, orbital.Orbital("x", line1=a, line2=b)) for (a, b) in r.sample(_REAL, min(len(_REAL), (n + 1) // 2))]
     rand = orbits.make_orbitals(ctx, n - len(reals), regimes=("leo", "near", "leo"), real=False)
@@ -510,6 +527,156 @@ def gen_boundary_cases(ctx, n, max_len=72):
         length = r.randint(24 * k + 1, max(24 * k + 1, max_len))
         case = {"line1": a, "line2": b, "start": start.isoformat(), "length": length, "lon": lon, "lat": lat, "alt": alt,
                 "horizon": horizon, "kind": "day_boundary", "boundary_event": which, "boundary_minute": k * 1440}
+        if in_domain(case):
+            out.append(case)
+    return out
+
+
+# ------------------------------------------------------------------------------------------------ clock changes of the process zone
+# POSIX rule zones with daylight-saving switches (both hemispheres, whole-hour / fractional offsets, a half-hour switch),
+# used when the zone the run was started in has none
+DST_ZONES = ["XST-5:45XDT-6:45,M3.5.0/2,M10.5.0/3", "CET-1CEST,M3.5.0,M10.5.0/3", "AEST-10AEDT,M10.1.0,M4.1.0/3",
+             "PST8PDT,M3.2.0,M11.1.0", "NST3:30NDT,M3.2.0/0:01,M11.1.0/0:01", "LHST-10:30LHDT-11,M10.1.0,M4.1.0"]
+
+
+@contextlib.contextmanager
+def process_zone(tz):
+    """Run a block with the process' local time zone set to the POSIX rule string tz (None: leave it as it is)."""
+    if tz is None or os.environ.get("TZ") == tz:
+        yield
+        return
+    old = os.environ.get("TZ")
+    os.environ["TZ"] = tz
+    time.tzset()
+    try:
+        yield
+    finally:
+        if old is None:
+            os.environ.pop("TZ", None)
+        else:
+            os.environ["TZ"] = old
+        time.tzset()
+
+
+def zone_switches(year):
+    """The instants of `year` at which the UTC offset of the zone in effect changes: [(POSIX seconds of the first second
+    with the new offset, offset before, offset after)], found by scanning time.localtime(t).tm_gmtoff day by day and
+    bisecting to the second."""
+    t = calendar.timegm((year, 1, 1, 0, 0, 0))
+    end = calendar.timegm((year + 1, 1, 1, 0, 0, 0))
+    out = []
+    try:
+        prev = time.localtime(t).tm_gmtoff
+        while t < end:
+            nxt = min(t + 86400, end)
+            off = time.localtime(nxt).tm_gmtoff
+            if off != prev:
+                lo, hi = t, nxt
+                while hi - lo > 1:
+                    mid = (lo + hi) // 2
+                    if time.localtime(mid).tm_gmtoff == prev:
+                        lo = mid
+                    else:
+                        hi = mid
+                out.append((hi, prev, off))
+                prev = off
+            t = nxt
+    except (OverflowError, OSError, ValueError):
+        return []
+    return out
+
+
+def _stamp_epoch(line1, epoch):
+    """line 1 with its epoch field replaced (another element set: same elements, issued at `epoch`)"""
+    import tlegen
+    doy = 1 + (epoch - dt.datetime(epoch.year, 1, 1)).total_seconds() / 86400.0
+    return tlegen.fix_checksum(line1[:18] + "%02d" % (epoch.year % 100) + ("%012.8f" % doy)[:12] + line1[32:68] + "0")
+
+
+def _tle_at(ctx, epoch):
+    """(line1, line2, Orbital) of a near-earth element set whose epoch is `epoch`: a random leo / near set, or a real one
+    re-issued with that epoch"""
+    import tlegen
+    from pyorbital import orbital
+    r = ctx.rng
+    real = _real_sets()
+    for _ in range(40):
+        if r.random() < 0.4 and real:
+            a, b = r.choice(real)
+            a = _stamp_epoch(a, epoch)
+        else:
+            _, a, b = tlegen.random_tle(r, r.choice(["leo", "near", "leo"]))
+            a = _stamp_epoch(a, epoch)
+        try:
+            o = orbital.Orbital("x", line1=a, line2=b)
+            o.get_position(o.tle.epoch)
+        except Exception:  # noqa  refusals are C13's subject
+            continue
+        if abs((o.tle.epoch.astype("datetime64[us]").astype(dt.datetime) - epoch).total_seconds()) > 1.0:
+            continue
+        return a, b, o
+    return None
+
+
+def gen_dst_cases(ctx, n, max_len=24):
+    """Searches of 6 .. max_len hours that CONTAIN a clock change of the process time zone.  The switch instants of the
+    zone in effect are found by scanning the local UTC offset over a year the element set's epoch can lie in; the window
+    is placed around the switch read (a) as naive wall-clock values: the skipped hour [S + off_before, S + off_after) when
+    clocks go forward, the repeated hour [S + off_after, S + off_before) when they go back, (b) as the UTC instant S.
+    pyorbital's times are UTC: nothing may happen at either."""
+    r = ctx.rng
+    cur = os.environ.get("TZ")
+    with process_zone(cur):
+        cur_has = bool(zone_switches(2021))
+    out = []
+    tries = 0
+    while len(out) < n and tries < 12 * n:
+        tries += 1
+        zone = cur if (cur_has and r.random() < 0.75) else r.choice(DST_ZONES)
+        year = r.randint(1990, 2049)
+        with process_zone(zone):
+            sw = zone_switches(year)
+        if not sw:
+            continue
+        s, off0, off1 = r.choice(sw)
+        if abs(off1 - off0) < 60:
+            continue
+        s_utc = dt.datetime(1970, 1, 1) + dt.timedelta(seconds=s)
+        reading = r.choice(["wall", "wall", "utc"])
+        width = dt.timedelta(seconds=abs(off1 - off0))
+        crit0 = s_utc + dt.timedelta(seconds=min(off0, off1)) if reading == "wall" else s_utc
+        got = _tle_at(ctx, crit0 + dt.timedelta(seconds=r.uniform(-2 * 86400, 86400)))
+        if got is None:
+            continue
+        a, b, o = got
+        length = r.randint(6, max(6, max_len))
+        placement = r.choice(["in_hour", "in_hour", "in_hour", "in_hour", "hour_after", "last_hour", "start_in_hour", "anywhere"])
+        if placement == "start_in_hour":
+            t0 = crit0 + width * r.uniform(0.02, 0.98)
+        else:
+            t0 = crit0 - dt.timedelta(seconds=r.uniform(1800.0, length * 3600.0 - 1.5 * 3600.0 - width.total_seconds()))
+        t0 = t0.replace(microsecond=r.choice([0, 0, r.randrange(10 ** 6)]))
+        if r.random() < 0.3:
+            t0 = t0.replace(second=0, microsecond=0)
+        end = t0 + dt.timedelta(hours=length)
+        if not orbits.answers(o, t0) or not orbits.answers(o, end):
+            continue
+        try:
+            if placement in ("in_hour", "start_in_hour"):
+                u0 = crit0 if placement == "in_hour" else crit0 + width
+                lon, lat, alt = _under_track(ctx, o, u0, width.total_seconds() / 3600.0)
+            elif placement == "hour_after":
+                lon, lat, alt = _under_track(ctx, o, crit0 + width, 1)
+            elif placement == "last_hour":
+                lon, lat, alt = _under_track(ctx, o, end - dt.timedelta(minutes=55), 0.75)
+            else:
+                lon, lat, alt = _rand_observer(ctx)
+        except Exception:  # noqa
+            continue
+        case = {"line1": a, "line2": b, "start": t0.isoformat(), "length": length, "lon": lon, "lat": lat, "alt": alt,
+                "horizon": r.choice([0, 0, 5, 10, 30]), "kind": "clock_change", "process_tz": zone,
+                "switch_utc": s_utc.isoformat(), "utc_offsets_s": [off0, off1],
+                "switch_direction": "forward" if off1 > off0 else "back", "switch_read_as": reading, "placement": placement}
         if in_domain(case):
             out.append(case)
     return out
@@ -864,13 +1031,14 @@ def judge(case, ps=None):
 def _run_oracle(ctx, cases, label):
     worst_root = worst_culm = 0.0
     for case in cases:
-        ps, _, err = run_impl(case)
+        with process_zone(case.get("process_tz")):
+            ps, _, err = run_impl(case)
+            viol, st = (None, None) if err else judge(case, ps)
         if err:
             ctx.count("eval_oracle_cases")
             ctx.violation("raised", case, err, "a list of passes (the propagator answers at every whole minute of the window)",
                           site="Orbital.get_next_passes")
             continue
-        viol, st = judge(case, ps)
         ctx.count("eval_oracle_cases")
         ctx.count("eval_oracle_passes", st["passes"])
         ctx.count("eval_oracle_required_intervals", st["required_intervals"])
@@ -878,6 +1046,8 @@ def _run_oracle(ctx, cases, label):
         ctx.bump(label + "_kind", case["kind"])
         ctx.bump(label + "_horizon", case["horizon"] if case["kind"] not in ("grazing", "exact_zero") else case["kind"])
         ctx.bump(label + "_length_h", "<=6" if case["length"] <= 6 else "<=24" if case["length"] <= 24 else "<=72")
+        if case["kind"] == "clock_change":
+            ctx.bump(label + "_clock_change", "%s/%s/%s" % (case["switch_direction"], case["switch_read_as"], case["placement"]))
         if st["max_el"] is not None:
             ctx.bump(label + "_peak", ">85" if st["max_el"] > 85 else ">60" if st["max_el"] > 60 else "<=60")
         if st["passes"] or st["truth_intervals"]:
@@ -920,6 +1090,8 @@ def oracle(ctx):
         ctx.note("exact-zero-sample stream (horizon = elevation of a whole-minute sample): %d of %d cases break the statement "
                  "(degenerate or duplicated passes); observed, not judged: no entry with match.kind/zero_sample "
                  "'exact_zero_sample' for C03 in known_findings.json" % (bad, len(zc)))
+    # windows that contain a clock change of the process time zone (the times are UTC: nothing may happen there)
+    _run_oracle(ctx, gen_dst_cases(ctx, ctx.size(12, 80), 24), "oracle")
 
 
 def search(ctx):
@@ -930,6 +1102,7 @@ def search(ctx):
     _run_sequences(ctx, gen_sequences(ctx, 8 if ctx.tier == "quick" else 30, 72), "search")
     if zero_regime_enabled():
         _run_oracle(ctx, gen_zero_cases(ctx, 20), "search")
+    _run_oracle(ctx, gen_dst_cases(ctx, 20 if ctx.tier == "quick" else 60, 24), "search")
 
 
 def zero_regime_enabled():
@@ -989,7 +1162,8 @@ def replay(ctx, payload):
             print("VIOLATES %s: %s; required: %s" % (kind, observed, required))
         print("stats:", tot)
         return 1 if viol else 0
-    viol, st = judge(case)
+    with process_zone(case.get("process_tz")):
+        viol, st = judge(case)
     for (kind, observed, required) in viol:
         print("VIOLATES %s: %s; required: %s" % (kind, observed, required))
     print("stats:", st)
